@@ -110,4 +110,48 @@ theorem lifecycle (f : Fuel ℝ) (lc : ℝ) (AV : String → List ℝ) :
   simp only [Kern.lifecycle_co2, lifecycleAdj, lcEnv, String.reduceEq, if_true, if_false, last0_eq, Vec.head0, lit_real, zero_real]
   norm_num
 
+/-! ## the LTO part (`emissions/lto.py`) -/
+
+/-- attribute environment of `get_LTO_emissions`: the four LTO fuel flows of the performance model -/
+def ltoEnv (l : LtoIn ℝ) : String → ℝ := fun k =>
+  if k = "lto_data.fuel_flow[ThrustMode.IDLE]" then l.ff.idle
+  else if k = "lto_data.fuel_flow[ThrustMode.APPROACH]" then l.ff.approach
+  else if k = "lto_data.fuel_flow[ThrustMode.CLIMB]" then l.ff.climb
+  else if k = "lto_data.fuel_flow[ThrustMode.TAKEOFF]" then l.ff.takeoff else 0
+
+macro "lto_close" : tactic =>
+  `(tactic| (simp only [ltoEnv, String.reduceEq, if_true, if_false, modeZero, ltoFuel, TM.mul, TM.zipWith, TM.zeroAC, ltoTIM, lit_real,
+      zero_real, Bool.not_eq_true', Bool.not_eq_true] <;> (first | rfl | (split_ifs <;> simp_all) | norm_num)))
+
+/-- the LTO indices, fuel and amounts of one species as `get_LTO_emissions` computes them (time in mode × fuel flow, approach and
+    climb zeroed in the trajectory accounting mode, amount = index × fuel per mode) are the model's `modeZero c ei`, `ltoFuel c l`
+    and their mode-wise product; the reported LTO fuel burn is the sum over the modes -/
+theorem lto_part (c : Cfg) (l : LtoIn ℝ) (ei : TM ℝ) :
+    (⟨Kern.lto_index_IDLE ei.idle ei.approach ei.climb ei.takeoff (!c.ltoMode),
+      Kern.lto_index_APPROACH ei.idle ei.approach ei.climb ei.takeoff (!c.ltoMode),
+      Kern.lto_index_CLIMB ei.idle ei.approach ei.climb ei.takeoff (!c.ltoMode),
+      Kern.lto_index_TAKEOFF ei.idle ei.approach ei.climb ei.takeoff (!c.ltoMode)⟩ : TM ℝ) = modeZero c ei ∧
+    (⟨Kern.lto_fuel_IDLE (ltoEnv l) ei.idle ei.approach ei.climb ei.takeoff (!c.ltoMode),
+      Kern.lto_fuel_APPROACH (ltoEnv l) ei.idle ei.approach ei.climb ei.takeoff (!c.ltoMode),
+      Kern.lto_fuel_CLIMB (ltoEnv l) ei.idle ei.approach ei.climb ei.takeoff (!c.ltoMode),
+      Kern.lto_fuel_TAKEOFF (ltoEnv l) ei.idle ei.approach ei.climb ei.takeoff (!c.ltoMode)⟩ : TM ℝ) = ltoFuel c l ∧
+    (⟨Kern.lto_emission_IDLE (ltoEnv l) ei.idle ei.approach ei.climb ei.takeoff (!c.ltoMode),
+      Kern.lto_emission_APPROACH (ltoEnv l) ei.idle ei.approach ei.climb ei.takeoff (!c.ltoMode),
+      Kern.lto_emission_CLIMB (ltoEnv l) ei.idle ei.approach ei.climb ei.takeoff (!c.ltoMode),
+      Kern.lto_emission_TAKEOFF (ltoEnv l) ei.idle ei.approach ei.climb ei.takeoff (!c.ltoMode)⟩ : TM ℝ)
+        = TM.mul (modeZero c ei) (ltoFuel c l) ∧
+    Kern.lto_fuel_burn (ltoEnv l) ei.idle ei.approach ei.climb ei.takeoff (!c.ltoMode) = (ltoFuel c l).sum := by
+  cases hc : c.ltoMode <;>
+  refine ⟨?_, ?_, ?_, ?_⟩ <;>
+  simp only [Kern.lto_index_IDLE, Kern.lto_index_APPROACH, Kern.lto_index_CLIMB, Kern.lto_index_TAKEOFF, Kern.lto_fuel_IDLE,
+    Kern.lto_fuel_APPROACH, Kern.lto_fuel_CLIMB, Kern.lto_fuel_TAKEOFF, Kern.lto_emission_IDLE, Kern.lto_emission_APPROACH,
+    Kern.lto_emission_CLIMB, Kern.lto_emission_TAKEOFF, Kern.lto_fuel_burn, ltoEnv, String.reduceEq, if_true, if_false, modeZero,
+    ltoFuel, TM.mul, TM.zipWith, TM.zeroAC, TM.sum, ltoTIM, hc, Bool.not_false, Bool.not_true, lit_real, zero_real,
+    Bool.false_eq_true, TM.mk.injEq] <;>
+  -- (closing tactics that do not depend on the order of the factors in the source: `fuel_flow * TIM` or `TIM * fuel_flow`)
+  (first
+    | (norm_num; done)
+    | (refine ⟨?_, ?_, ?_, ?_⟩ <;> first | (norm_num; done) | (ring_nf; done) | (norm_num; ring_nf; done) | (norm_num; simp; done))
+    | (ring_nf; done) | (norm_num; ring_nf; done) | (norm_num; simp; done))
+
 end KernelBridge5
